@@ -4,6 +4,7 @@ import (
 	"encoding/binary"
 	"fmt"
 	"io"
+	"math"
 
 	"google.golang.org/protobuf/proto"
 )
@@ -43,6 +44,9 @@ func WriteMessage(msg proto.Message, w io.Writer) error {
 	return nil
 }
 
+// maxMessageSize is the largest message ReadMessage accepts.
+const maxMessageSize = math.MaxInt32
+
 // Read a message from io.ByteReader by first reading a varint size,
 // and then reading and decoding the message object.
 // If buf is not big enough a new buffer will be allocated to replace buf.
@@ -50,6 +54,11 @@ func ReadMessage(buf *[]byte, r ByteReadReader, msg proto.Message) error {
 	size, err := binary.ReadUvarint(r)
 	if err != nil {
 		return err
+	}
+	// The size is chosen by the peer: refuse what cannot be a message
+	// (protobuf messages are limited to 2GiB) instead of panicking in make.
+	if size > maxMessageSize {
+		return fmt.Errorf("message size %d exceeds maximum of %d bytes", size, maxMessageSize)
 	}
 	if cap(*buf) < int(size) {
 		*buf = make([]byte, size)
